@@ -255,7 +255,7 @@ PROPS = {
     'C16': {
         'id': 'C16', 'area': ['rem', 'rsn'],
         'theorems': ['Props.C16_window_exact', 'Props.C16_sequence_is_filtered_log', 'Props.C16_stream_delivers_window', 'Props.C16_search_paging',
-                     'Props.C16_lookup_first_not_before', 'Props.C16_any_schedule_invariant', 'Props.C16_settled_is_window',
+                     'Props.C16_lookup_first_not_before', 'Props.C16_time_lookup', 'Props.C16_any_schedule_invariant', 'Props.C16_settled_is_window',
                      'Props.C16_eventually_settles', 'Props.C16_late_stream_rounds', 'Props.C16_consts'],
         'n_quick': [250, 3000], 'n_thorough': [4000, 150000], 'env': {'VERIF_JOBS': '16'},
     },
